@@ -8,7 +8,7 @@ import z3
 from symnp import Engine, Rebinder, SV, SB, SIdx, SymArray, sym_array, to_obj, _raw
 from symnp import ob as O
 from symnp.explore import Out
-from vf.common import Harness, snap, stubs, col
+from vf.common import Harness, snap, stubs, col, cached_options
 
 import pybads.bads.gaussian_process_train as gptmod
 import pybads.search.grid_functions as gfmod
@@ -184,4 +184,53 @@ class HAcq(Harness):
         for i in range(n):
             out.ob("acquisition_is_mean_minus_sqrt_beta_sd", O.And(O.ge(fs[i, 0], 0), O.approx(fs[i, 0] * fs[i, 0], s2[i], 1e-12),
                                                                   O.approx(z[i, 0], mu[i] - sb * fs[i, 0], 1e-9), O.eq(fm[i, 0], mu[i], 0.0)))
+        return out
+
+
+class HTrainOpts(Harness):
+    """_get_gp_training_options: the N-dependent schedule of training restarts.
+    params: D, rows (logged rows), iter, second, B (None: symbolic budget and initial-design size; k: budget = rows + k), ne_max"""
+    name = "H-NB/trainopts"
+    functions = (gptmod._get_gp_training_options,)
+    stubs_doc = ("function_logger: `rows` flagged rows with symbolic evaluation counts >= 1", "iteration_history.record: recorded")
+    assumptions_doc = ("eff_starting_points = rows logged by the initial design, 1 <= eff_starting_points <= logged rows",
+                       "max_fun_evals >= eff_starting_points (C03's condition: the budget covers the initial design), symbolic integer <= 10^6",
+                       "other options at the documented defaults of the current tree")
+
+    def case(self, eng):
+        p = self.p
+        D, rows = p.get("D", 2), p.get("rows", 2)
+        opts = cached_options(D, {})
+        rb = Rebinder(eng.concrete, stubs=stubs())
+        f = rb.func(gptmod._get_gp_training_options)
+        if p.get("B") is None:
+            B = eng.integer("B")
+            esp = eng.integer("esp")
+            if not eng.concrete:
+                eng.assume(z3.And(esp.e >= 1, esp.e <= rows, B.e >= esp.e, B.e <= 10 ** 6))
+        else:
+            # concrete budget (offset from the initial design) where the schedule value is converted to an int (nonlinear)
+            esp = rows
+            B = rows + p["B"]
+        opts["max_fun_evals"] = B
+        ne = np.zeros((rows + 1, 1)).astype(object).view(SymArray) if not eng.concrete else np.zeros((rows + 1, 1))
+        for i in range(rows):
+            v = eng.integer(f"ne_{i}")
+            if not eng.concrete:
+                eng.assume(z3.And(v.e >= 1, v.e <= p.get("ne_max", 50)))
+            ne[i, 0] = v
+        fl = type("FL", (), {})()
+        fl.n_evals = ne
+        fl.X_flag = np.array([True] * rows + [False])
+        rec = []
+        ih = type("IH", (), {"record": lambda s, k, v, it: rec.append((k, v, it))})()
+        it = p.get("iter", 0)
+        os_ = dict(iter=it, eff_starting_points=esp, ntrain=rows)
+        out = Out()
+        gt = f(os_, ih, opts, {}, 3, fl, second_fit=p.get("second", False))
+        out.tag = dict(rec=len(rec))
+        fin = opts["gp_train_n_init_final"]
+        out.ob("training_restarts_at_least_final_value", O.ge(gt["init_N"], fin))
+        out.ob("training_restarts_at_most_initial_value", O.le(gt["init_N"], max(opts["gp_train_n_init"], fin)))
+        out.ob("training_options_complete", all(k in gt for k in ("init_method", "tol_opt", "sampler", "init_N", "opts_N", "n_samples")))
         return out
